@@ -75,6 +75,7 @@ func runC20(c *Ctx) {
 	c.rule("H5", "a digest is returned only where the copy into the hasher reported no error at all", 1)
 	c.rule("H6", "before the copy into the hasher a reader is refused only where the parameter was found nil (or by the context gate): no predicate over the reader's content or state decides", 1)
 	c.rule("H3", "NewHashingAlgorithm maps each algorithm name to the standard, unkeyed constructor", 6)
+	c.rule("H9", "in the file hasher and in package hashing a deferred function literal stores into the enclosing function's error variable only where that variable is nil, or a value derived from its current value: releasing the handle never turns a failed calculation into a digest without an error", 0)
 	c.rule("H4", "file hashing opens the requested path and passes that handle, unchanged, down to IHash.Calculate*", 6)
 
 	const pkg = "hashing"
@@ -82,6 +83,18 @@ func runC20(c *Ctx) {
 	if p == nil {
 		return
 	}
+	// --- H9 -------------------------------------------------------------------
+	// "the digest returned for a content equals the reference digest": what the file hasher answers is the pair the hasher
+	// answered for the handle. A deferred release of the handle that writes its own outcome over the error (`err =
+	// convert(closeErr)` where the calculation failed and the close did not) hands back ("", nil): no digest, no error.
+	// No such store exists on the pinned sources (the handle is released with `_ = f.Close()`); the rule holds the ones
+	// that may be added to the discipline of C09/A21.
+	c.deferredCleanupKeepsTheError("H9", func(f *ssa.Function) bool {
+		if f.Pkg != nil && strings.HasSuffix(f.Pkg.Pkg.Path(), "/hashing") {
+			return true
+		}
+		return strings.HasSuffix(c.Fset.Position(f.Pos()).Filename, "filesystem/filehash.go")
+	}, "the deferred function overwrites the error of the calculation with the outcome of releasing the handle: a calculation that failed (a read error, a cancellation midway) on a handle that closes cleanly is reported as (\"\", nil) — an empty digest without an error, which is the reference digest of nothing")
 	// --- H1 / H1w / H2 ------------------------------------------------------
 	writers := 0
 	for _, sp := range c.SSAPkgs {
